@@ -46,6 +46,50 @@ func init() {
 		}
 		return mkString(segs)
 	}
+	fprint := func(fr *frame, w value, text value) value {
+		it := w.(iface)
+		if it.t == nil {
+			panic(rtErr{"invalid memory address or nil pointer dereference"})
+		}
+		name := ""
+		if pt, ok := it.t.(*types.Pointer); ok {
+			if nt, ok := pt.Elem().(*types.Named); ok && nt.Obj().Pkg() != nil {
+				name = nt.Obj().Pkg().Path() + "." + nt.Obj().Name()
+			}
+		}
+		switch name {
+		case "bytes.Buffer", "strings.Builder":
+			return externals["(*"+name+").WriteString"](fr, []value{it.v, text})
+		}
+		// any other io.Writer: call its Write method through the interpreter
+		ms := fr.i.prog.MethodSets.MethodSet(it.t)
+		sel := ms.Lookup(nil, "Write")
+		if sel == nil {
+			panic(pathAbort{"unsupported", "fmt.Fprint to a writer without Write"})
+		}
+		fn := fr.i.prog.LookupMethod(it.t, nil, "Write")
+		return call(fr.i, fr, 0, fn, []value{it.v, stringToBytes(fr.i.ex.flatten(text))})
+	}
+	externals["fmt.Fprintf"] = func(fr *frame, args []value) value {
+		return fprint(fr, args[0], fr.sprintf(args[1], args[2].([]value)))
+	}
+	externals["fmt.Fprint"] = func(fr *frame, args []value) value {
+		return fprint(fr, args[0], externals["fmt.Sprint"](fr, []value{args[1]}))
+	}
+	externals["fmt.Fprintln"] = func(fr *frame, args []value) value {
+		return fprint(fr, args[0], externals["fmt.Sprintln"](fr, []value{args[1]}))
+	}
+	externals["fmt.Sprintln"] = func(fr *frame, args []value) value {
+		var segs []Seg
+		for k, a := range args[0].([]value) {
+			if k > 0 {
+				segs = append(segs, byteSeg(' '))
+			}
+			segs = append(segs, fr.fmtValue(a, 'v', 0, false, false)...)
+		}
+		segs = append(segs, byteSeg('\n'))
+		return mkString(segs)
+	}
 	externals["errors.New"] = func(fr *frame, args []value) value {
 		return fr.i.newError(args[0])
 	}
